@@ -84,10 +84,10 @@ def _fit_cases(quick):
     # differ by less than 1e-5 of the likelihood, and the result must still be the WLS minimum (tolerance max(1e-3, 1e-6 |NLL|) = 0.13 nat)
     for sgn in (1, -1):
         for lo in (False, True):
-            for fam, th in (("prop", [sgn * 1.8]), ("const", [sgn * 3.5])):
+            for fam, th in (("prop", [sgn * 1.2]), ("const", [sgn * 2.3])):          # noise-free: the optimum is ~0.57 nat below the value at a0 -> 0
                 k = len(cases)
                 cases.append({"id": k, "kind": "fit", "fstr": optdrive.FAMILIES[fam][0], "family": fam, "mode": "log1" if lo else "lin", "signtable": ST["log1" if lo else "lin"],
-                              "theta": th, "sigma": 300.0, "n": 20000, "dseed": 7919 * evidence.seed() + k, "seed": 104729 * evidence.seed() + k,
+                              "theta": th, "sigma": 300.0, "n": 20000, "noise": 0.0, "dseed": 7919 * evidence.seed() + k, "seed": 104729 * evidence.seed() + k,
                               "log_opt": lo, "niter": NITER_DEFAULT, "nconv": NCONV_DEFAULT, "niter_n": NITER_DEFAULT[0] + NITER_DEFAULT[1], "nconv_n": NCONV_DEFAULT[0] + NCONV_DEFAULT[1]})
     for f in ("x*x", "inv(x) + x", "sqrt(x)"):
         cases.append({"id": len(cases), "kind": "free", "fstr": f, "sigma": 0.1, "dseed": 1, "log_opt": False, "seed": 1,
